@@ -271,6 +271,17 @@ Proof.
   destruct (c04_execute g ptx buf penv Hg Hbuf Hsw memo inline (S n) r st0 p f evs Hs H) as (st' & M' & E).
   rewrite M in M'. inv M'. eauto.
 Qed.
+Corollary generated_code_tokens memo inline n r st0 p f evs :
+  deep_table_b g inline = true -> slot_ok g inline r -> reached (count_rules g) r = true ->
+  peg_parse g ptx buf penv (S n) r = Some (Succ p f, evs) ->
+  forall res, xcall buf penv (mk_opts true memo inline g) (gen_fn inline) r (reset st0) res ->
+    exists st' kids, res = Ret true st' /\ live st' = Syntax.flat f /\ f = [Node r 0 p kids] /\
+      live st' = Syntax.flat kids ++ [(r, (0, p))] /\ Forall (inb 0 (length buf)) (live st').
+Proof.
+  intros Hd Hs Hr H res Hx. destruct (generated_code_is_machine memo inline n r st0 _ Hd Hs Hr H res Hx) as [M _].
+  destruct (c03_tokens g ptx buf penv Hg Hbuf Hsw memo inline (S n) r st0 p f evs Hs H) as (st' & kids & M' & E).
+  rewrite M in M'. inv M'. eauto.
+Qed.
 Corollary generated_code_ast memo inline n r st0 p f evs :
   deep_table_b g inline = true -> slot_ok g inline r -> reached (count_rules g) r = true ->
   peg_parse g ptx buf penv (S n) r = Some (Succ p f, evs) ->
